@@ -82,7 +82,7 @@ class SymRng:
                 total = pv[0]
                 for x in pv[1:]:
                     total = total + x
-                if not (total == 1):
+                if not (abs(total - 1) <= 1e-8):  # numpy's own tolerance
                     raise core.emulated(ValueError("probabilities do not sum to 1"))
             thr = self.zero_threshold
             conds = [x > thr for x in pv]
